@@ -67,8 +67,11 @@ ProgsAndOr ==
 (* `!` at every position of conjunctions and disjunctions, followed by        *)
 (* succeeding / failing / multi-answer goals, in called predicates, with       *)
 (* later clauses that succeed, fail and print                                  *)
-CutLits == {Call(q1(X)), Call(r1(X)), CutG, FailG, UnifyG(X, b), pr(X), Call(c1(X))}
-CutLitsS == {Call(q1(X)), Call(r1(X)), CutG, FailG, pr(X)}
+(* k($X) :- q($X).  -- a goal whose answers come from the LAST (only) clause of its predicate, a rule whose body *)
+(* has further answers: after a cut it must not be re-tried either                                             *)
+k1(t) == Cx("k", <<t>>)
+CutLits == {Call(q1(X)), Call(r1(X)), CutG, FailG, UnifyG(X, b), pr(X), Call(c1(X)), Call(k1(X))}
+CutLitsS == {Call(q1(X)), Call(r1(X)), CutG, FailG, pr(X), Call(k1(X))}
 RECURSIVE HasCutG(_)
 HasCutG(g) == g = CutG \/ (g.g \in {"and", "or"} /\ \E i \in DOMAIN g.gs : HasCutG(g.gs[i]))
 CutBodiesAll ==
@@ -88,7 +91,7 @@ CutBodiesAll ==
   \cup {OrG(<<l1, l2, l3>>) : l1 \in CutLitsS, l2 \in CutLitsS, l3 \in {CutG, Call(r1(X)), FailG}}
   \cup {CutG}
 CutBodies == {bd \in CutBodiesAll : HasCutG(bd) \/ (bd.g = "and" /\ \E i \in DOMAIN bd.gs : bd.gs[i] = Call(c1(X)))}
-CalledCut == <<Clause(c1(X), AndG(<<Call(q1(X)), CutG>>)), Fact(c1(c))>>
+CalledCut == <<Clause(c1(X), AndG(<<Call(q1(X)), CutG>>)), Fact(c1(c)), Clause(k1(X), Call(q1(X)))>>
 CutSecond == {Fact(p1(c)), Clause(p1(X), Call(r1(X))), Clause(p1(X), AndG(<<pr(Atom("second")), FailG>>)),
               Clause(p1(X), AndG(<<Call(r1(X)), CutG>>))}
 CutFirst  == {Fact(p1(a)), Clause(p1(X), Call(q1(X)))}
@@ -114,8 +117,16 @@ NotBodies ==
   \cup {AndG(<<NotG(g), l>>) : l \in {Call(q1(X)), Call(r1(X))}, g \in NotInner}
   \cup {OrG(<<NotG(g), l>>) : l \in {Call(q1(X))}, g \in NotInner}
   \cup {AndG(<<l, NotG(g), pr(X)>>) : l \in {Call(q1(X)), Call(r1(X))}, g \in {Call(r1(X)), Call(q1(Y)), UnifyG(X, a)}}
+(* facts whose first head argument is $_ or a variable, before / after facts with constants; not(...) over calls *)
+(* whose first argument is a constant or bound when the not is reached                                          *)
+w2(t, u) == Cx("w", <<t, u>>)
+AnonFacts == <<Fact(w2(Anon, a)), Fact(w2(b, b)), Fact(w2(c, c)), Fact(w2(X, Atom("d")))>>
+NotAnonBodies == {NotG(Call(w2(X, a))), NotG(Call(w2(X, Atom("d")))), NotG(Call(w2(a, X))), NotG(Call(w2(b, a))), NotG(Call(w2(a, a))),
+                  AndG(<<Call(q1(X)), NotG(Call(w2(X, a)))>>), AndG(<<Call(r1(X)), NotG(Call(w2(X, Atom("d")))), pr(X)>>),
+                  AndG(<<UnifyG(Y, X), NotG(Call(w2(Y, a)))>>), NotG(Call(w2(X, Y)))}
 ProgsNot ==
        PQS({BaseFacts \o <<Clause(p1(X), bd)>> : bd \in NotBodies}, {p1(Z), p1(a), p1(c)})
+  \cup PQS({BaseFacts \o AnonFacts \o <<Clause(p1(X), bd)>> : bd \in NotAnonBodies}, {p1(Z), p1(a), p1(b), p1(c)})
   \cup PQS({BaseFacts \o <<Clause(p1(X), bd), c2_>> :
                  bd \in NotBodies, c2_ \in {Fact(p1(c)), Clause(p1(X), NotG(Call(q1(X))))}}, {p1(Z)})
 
@@ -132,7 +143,13 @@ IsPrint(g) == g.g = "bip" /\ g.f \in {"print", "print_list", "nl"}
 PrintsSome(bd) == \E i \in DOMAIN bd.gs : IsPrint(bd.gs[i]) \/
                      (bd.gs[i].g \in {"and", "not"} /\ \E j \in DOMAIN bd.gs[i].gs :
                          IsPrint(bd.gs[i].gs[j]) \/ (bd.gs[i].gs[j].g = "and" /\ \E k \in DOMAIN bd.gs[i].gs[j].gs : IsPrint(bd.gs[i].gs[j].gs[k])))
+DupFacts == <<Fact(q1(a)), Fact(Cx("u", <<>>)), Fact(Cx("u", <<>>))>>      \* q(a) twice, u() twice
+PrintDupBodies == {AndG(<<Call(q1(a)), pr(X), FailG>>), AndG(<<Call(q1(a)), pr(a), FailG>>), AndG(<<Call(Cx("u", <<>>)), pr(b), FailG>>),
+                   AndG(<<OrG(<<Call(q1(a)), Call(r1(b))>>), pr(c), FailG>>), AndG(<<Call(q1(a)), pr(a), Call(r1(X))>>),
+                   AndG(<<Call(Cx("u", <<>>)), NlG, Call(t1(X))>>), AndG(<<UnifyG(X, X), Call(q1(a)), pr(a), FailG>>)}
 ProgsPrint ==
+    PQS({BaseFacts \o DupFacts \o <<Clause(p1(X), bd), Clause(p1(X), pr(Atom("!")))>> : bd \in PrintDupBodies}, {p1(Z), p1(b)})
+    \cup
     PQS({BaseFacts \o <<Clause(p1(X), bd), Clause(p1(X), AndG(<<Call(r1(X)), pr(Atom("!"))>>))>> :
               bd \in {bd2 \in PrintBodies : PrintsSome(bd2)}}, {p1(Z)})
 
@@ -190,6 +207,24 @@ ListQueries ==
     Cx("wrap", <<Z>>), Cx("wrap", <<Lst(<<Atom("x")>>)>>), Cx("wrap", <<T_>>), Cx("keep", <<LstT(<<Z>>, T_)>>) }
 ProgsLists == PQ(ListProg, ListQueries)
 
+(* ------------------------------ slice: deep recursion -------------------- *)
+(* an argument handed down unchanged through 60-100 levels (a chain of that many variable  *)
+(* bindings), used by a comparison / arithmetic / unification at the bottom                  *)
+I_ == V("$I")  Mx == V("$Max")  J_ == V("$J")  K_ == V("$K")  K2 == V("$K2")
+CountTo(i, m, r) == Cx("count_to", <<i, m, r>>)
+DeepProg ==
+  << Clause(CountTo(I_, Mx, I_), Bip("greater_than_or_equal", <<I_, Mx>>)),
+     Clause(CountTo(I_, Mx, R_), AndG(<<Bip("less_than", <<I_, Mx>>), UnifyG(J_, Fn("add", <<I_, IntT(1)>>)), Call(CountTo(J_, Mx, R_))>>)),
+     Fact(Cx("keep", <<IntT(0), X, X>>)),
+     Clause(Cx("keep", <<N, X, R_>>), AndG(<<Bip("greater_than", <<N, IntT(0)>>), UnifyG(M, Fn("subtract", <<N, IntT(1)>>)), Call(Cx("keep", <<M, X, R_>>))>>)),
+     Fact(Cx("same", <<IntT(0), X>>)),
+     Clause(Cx("same", <<N, X>>), AndG(<<Bip("greater_than", <<N, IntT(0)>>), UnifyG(M, Fn("subtract", <<N, IntT(1)>>)), Call(Cx("same", <<M, X>>)),
+                                        Bip("equal", <<X, a>>)>>)) >>
+DeepQueries == {CountTo(IntT(0), IntT(n), Z) : n \in {3, 40, 62, 63, 64, 65, 90}} \cup {CountTo(IntT(5), IntT(2), Z)}
+               \cup {Cx("keep", <<IntT(n), a, Z>>) : n \in {2, 63, 70}} \cup {Cx("keep", <<IntT(66), Z, W>>)}
+               \cup {Cx("same", <<IntT(n), a>>) : n \in {1, 64, 80}} \cup {Cx("same", <<IntT(70), b>>)}
+ProgsDeep == PQ(DeepProg, DeepQueries)
+
 (* ------------------------------ slice: aliasing / names ----------------- *)
 (* query variable names reused inside rules, all rules sharing names, var-var   *)
 (* aliasing through heads                                                       *)
@@ -204,13 +239,20 @@ AliasExtra == <<Clause(Cx("e2", <<X, Y>>), UnifyG(X, Y)), Fact(Cx("e2", <<a, b>>
 AliasQueries == {Cx("e", <<Z, W>>), Cx("e", <<Z, Z>>), Cx("e", <<Z, a>>), Cx("e", <<a, Z>>), Cx("e", <<X, Y>>),
                  Cx("e", <<Y, X>>), p1(Z), p1(X), Cx("e", <<Cx("f", <<X>>), Cx("f", <<Z>>)>>),
                  Cx("e", <<Lst(<<X>>), LstT(<<Z>>, W)>>)}
+(* an answer that keeps an unbound variable of a clause fetched late (its id has two digits) inside a compound term *)
+VA == V("$A") VB == V("$B") VC == V("$C") VD == V("$D") VE == V("$E") VF == V("$F") VG == V("$G") VH == V("$H")
+LateProg == BaseFacts \o
+  << Clause(Cx("late", <<X>>), AndG(<<Call(s2(VA, VB)), Call(s2(VC, VD)), Call(s2(VE, VF)), Call(s2(VG, VH)), Call(Cx("pack", <<X>>))>>)),
+     Fact(Cx("pack", <<Cx("box", <<V("$Item")>>)>>)), Fact(Cx("pack", <<LstT(<<a>>, V("$Item"))>>)) >>
 ProgsAlias == PQS({BaseFacts \o AliasExtra \o <<c1_, c2_>> : c1_ \in AliasClauses, c2_ \in AliasClauses}, AliasQueries)
+              \cup PQ(LateProg, {Cx("late", <<Z>>), Cx("late", <<X>>)})
 
 ProgQueries == CASE Slice = "andor" -> ProgsAndOr
                  [] Slice = "cut"   -> ProgsCut
                  [] Slice = "not"   -> ProgsNot
                  [] Slice = "print" -> ProgsPrint
                  [] Slice = "time"  -> ProgsTime
+                 [] Slice = "deep"  -> ProgsDeep
                  [] Slice = "lists" -> ProgsLists
                  [] Slice = "alias" -> ProgsAlias
 
@@ -240,7 +282,9 @@ Prepare ==
     /\ UNCHANGED <<prog, query, nodes, stack, ret, nextId, stop, outbuf, hist, acts, steps, fireAt, crSeen, lastAct>>
 
 NumNone == Cardinality({k \in DOMAIN hist : ~hist[k].some})
-MayAsk  == phase = "idle" /\ NumNone <= ReAsks
+(* (slice "deep": only the reference search is evaluated -- the machine's node store makes TLC crawl at   *)
+(*  depth 60+ -- and the real engine is replayed against it)                                             *)
+MayAsk  == phase = "idle" /\ NumNone <= ReAsks /\ Slice # "deep"
 
 Next == \/ Prepare
         \/ (MayAsk /\ Ask /\ UNCHANGED expect)
@@ -265,7 +309,7 @@ Refines ==
        /\ (phase = "run" => IsPrefixSeq(outbuf, ExpectAt(Len(hist) + 1).out))
 Finished == (phase = "idle" /\ ~MayAsk) \/ phase = "outside"
 (* nothing is left unanswered *)
-Complete == (phase = "idle" /\ ~MayAsk) => Len(hist) = Len(expect) + ReAsks
+Complete == (phase = "idle" /\ ~MayAsk /\ Slice # "deep") => Len(hist) = Len(expect) + ReAsks
 (* the machine never exceeds the step budget on a program inside the claim      *)
 Terminates == steps < MaxSteps
 
@@ -290,7 +334,7 @@ RenGoal(g, names, pool) ==
 RenGoals(gs, names, pool) == IF gs = <<>> THEN <<>> ELSE <<RenGoal(Head(gs), names, pool)>> \o RenGoals(Tail(gs), names, pool)
 RECURSIVE Reverse(_)
 Reverse(sq) == IF sq = <<>> THEN <<>> ELSE Append(Reverse(Tail(sq)), Head(sq))
-Pool1(q) == QueryNames(q) \o <<"$V1", "$V2", "$V3", "$V4", "$V5", "$V6", "$V7">>
+Pool1(q) == QueryNames(q) \o <<"$V1", "$V2", "$V3", "$V4", "$V5", "$V6", "$V7", "$V8", "$V9", "$V10", "$V11", "$V12">>
 RenClauseBy(cl, which, q) ==
     LET names == ClauseNames(cl)
         pool  == IF which = 1 THEN Pool1(q) ELSE Reverse(names)
